@@ -218,7 +218,7 @@ PROPS["C15"] = {
 
 PROPS["C16"] = {
     "engine": "progs",
-    "parts": [{"kind": "py", "module": "c16"}, {"kind": "bin", "bin": "p16"}],
+    "parts": [{"kind": "py", "module": "c16"}, {"kind": "bin", "bin": "p16", "optional": True}],
     "rule": "E3: generated programs in which every literal is a separate expansion of the real dna!/iupac!/kmer! macros, compiled against the working tree; positive literals (every dna literal up to length 4/5, every iupac literal up to length 1/2, every symbol at chosen/every position for word-boundary lengths up to 200, kmer! for K up to 32 on usize/u64 and up to 64 on u128) are run and compared with Seq::try_from(text) for length, symbols, ==, hasher input and display; negative literals (one offending character of each class at first/middle/last or every position) are interleaved line by line with valid ones and cargo check --message-format=json must put an error on exactly the offending lines. E4: dna_seq / iupac_seq of bio-seq-derive driven directly over every string up to a length bound (alphabet + offending characters) against the runtime parser's packed bits",
     "bound": {"quick": "about 1100 positive expansions, 470 negative lines; E4: every string of length <= 5 (dna, 10 characters) / <= 3 (iupac, 21 characters)",
               "thorough": "about 6000 positive expansions (every symbol at every position of every listed length), 2500 negative lines; E4: length <= 7 / <= 4"},
@@ -231,7 +231,7 @@ PROPS["C16"] = {
 
 PROPS["C17"] = {
     "engine": "progs",
-    "parts": [{"kind": "py", "module": "c17"}, {"kind": "bin", "bin": "p17"}],
+    "parts": [{"kind": "py", "module": "c17"}, {"kind": "bin", "bin": "p17", "optional": True}],
     "rule": "E3: enum declarations generated from a bounded grammar (G1 {A=0,Z=m} for every m without a width; G2 declared widths from minimal to 8 at power-of-two edges; G3 every literal form (decimal, 0b, 0x, 0o, suffix, underscores, byte) x values; G4 placements of 0..2 alternatives over a 3-bit code space for 2-3 variants with default/punctuation/digit/lower-case display; G5 2..40 variants; G6 derived codecs of widths 1,3,5,7,8 through generic sequence laws) are compiled with the real #[derive(Codec)] in the dev and the release profile; every generated module checks BITS, items(), to_bits, to_char and all 256 bytes through try_from_bits/unsafe_from_bits/try_from_ascii/unsafe_from_ascii against tables computed by the generator from the declaration; 17 malformed declarations interleaved with valid controls must each fail to compile on their own lines. E4: parse_width for every max discriminant 1..=255 x {no #[bits], #[bits(1..=8)]} and parse_variants for 255 x 4 literal forms, driven directly in both harness profiles",
     "bound": {"quick": "about 210 declarations x 2 profiles, 17 rejections x 2 profiles; E4 complete (2295 + 1020 cases x 2 profiles)", "thorough": "about 1540 declarations x 2 profiles (every m in G1, every width in G2, every primary-code permutation in G4)"},
     "assumptions": COMMON_ASSUME + ["expected tables are computed by the python generator from the declaration text, independently of the derive", "rustc/cargo as installed; error text is not compared",
